@@ -67,9 +67,10 @@ structure Cfg where
   dupKwCheck : Bool        -- ast_call raises TypeError for a keyword given twice through `**`
   listTarget : Bool        -- recurse_assign unpacks into `[a, b]` targets
   uaddApplies : Bool       -- ast_unaryop_uadd applies `+`
+  kwGroupMerge : Bool      -- ast_call evaluates a whole run of explicit keywords before merging it (duplicate → TypeError after)
 deriving Repr, DecidableEq
 
-def Cfg.python : Cfg := ⟨true, true, true, true, true, true, true, true, true⟩
+def Cfg.python : Cfg := ⟨true, true, true, true, true, true, true, true, true, true⟩
 
 mutual
 inductive Expr where
@@ -236,6 +237,12 @@ def evalElts : List Elt → Store → W → R W (List Val × Store)
     bind (eval e σ w) fun a w => bind (P.iter a.1 w) fun xs w =>
     bind (evalElts es a.2 w) fun r w => (.ok (xs ++ r.1, r.2), w)
 
+/-- a duplicate was found while a run of explicit keywords is being evaluated: CPython evaluates the REST of the run
+(BUILD_MAP) before the merge (DICT_MERGE) raises; an exception of one of those values comes first -/
+def drainGroup (ex : Exc) : List Kw → Store → W → R W (List (String × Val) × Store)
+  | .named _ e :: ks, σ, w => bind (eval e σ w) fun a w => drainGroup ex ks a.2 w
+  | _, _, w => (.error ex, w)
+
 /-- keyword arguments of a call, merged left to right -/
 def evalKws (acc : List (String × Val)) : List Kw → Store → W → R W (List (String × Val) × Store)
   | [], σ, w => (.ok (acc, σ), w)
@@ -243,7 +250,7 @@ def evalKws (acc : List (String × Val)) : List Kw → Store → W → R W (List
     bind (eval e σ w) fun a w =>
     match kwMerge cfg acc k a.1 with
     | .ok acc' => evalKws acc' ks a.2 w
-    | .error ex => (.error ex, w)
+    | .error ex => if cfg.kwGroupMerge then drainGroup ex ks a.2 w else (.error ex, w)
   | .splat e :: ks, σ, w =>
     bind (eval e σ w) fun a w => bind (P.kwkeys a.1 w) fun items w =>
     match kwMergeAll cfg acc items with
@@ -385,9 +392,10 @@ end
 /-- what the code does today (certified by the correspondence check, flipped by `fix:` commits) -/
 def Current.cfg : Cfg :=
   { dictKeyFirst := true, callArgsFirst := true, compareOnce := true, augTargetOnce := true,
-    augInPlace := true, fstrConversion := true, dupKwCheck := true, listTarget := true, uaddApplies := true }
+    augInPlace := true, fstrConversion := true, dupKwCheck := true, listTarget := true, uaddApplies := true,
+    kwGroupMerge := true }
 
 /-- the handlers as they were before the `fix:` commits (every flag off) – kept for the regression witnesses -/
-def Cfg.preFix : Cfg := ⟨false, false, false, false, false, false, false, false, false⟩
+def Cfg.preFix : Cfg := ⟨false, false, false, false, false, false, false, false, false, false⟩
 
 end PsModel.C01
